@@ -1117,7 +1117,10 @@ impl KotoVm {
                 catch_offset,
             } => {
                 let catch_ip = self.ip() + catch_offset as u32;
-                self.frame_mut().catch_stack.push((arg_register, catch_ip));
+                let builder_counts = (self.sequence_builders.len(), self.string_builders.len());
+                self.frame_mut()
+                    .catch_stack
+                    .push((arg_register, catch_ip, builder_counts));
             }
             TryEnd => {
                 self.frame_mut().catch_stack.pop();
@@ -3658,6 +3661,8 @@ impl KotoVm {
 
         self.call_stack
             .push(Frame::new(chunk.clone(), non_locals, new_frame_base));
+        self.frame_mut().builder_counts =
+            (self.sequence_builders.len(), self.string_builders.len());
         self.register_base = new_frame_base;
         self.set_chunk_and_ip(chunk, ip);
     }
@@ -3724,11 +3729,23 @@ impl KotoVm {
 
         while let Some(frame) = self.call_stack.last() {
             match frame.catch_stack.last() {
-                Some((error_register, catch_ip)) if allow_catch => {
-                    return Ok((*error_register, *catch_ip));
+                Some((error_register, catch_ip, builder_counts)) if allow_catch => {
+                    let (error_register, catch_ip, builder_counts) =
+                        (*error_register, *catch_ip, *builder_counts);
+                    // Discard any sequences or strings that were under construction in the
+                    // try block when the error was thrown.
+                    self.sequence_builders.truncate(builder_counts.0);
+                    self.string_builders.truncate(builder_counts.1);
+                    return Ok((error_register, catch_ip));
                 }
                 _ => {
-                    if frame.execution_barrier {
+                    // Discard any sequences or strings that were under construction in the frame
+                    let builder_counts = frame.builder_counts;
+                    let execution_barrier = frame.execution_barrier;
+                    self.sequence_builders.truncate(builder_counts.0);
+                    self.string_builders.truncate(builder_counts.1);
+
+                    if execution_barrier {
                         break;
                     }
 
@@ -4031,7 +4048,10 @@ struct Frame {
     // When returning to this frame, the register that should receive the return value
     pub return_value_register: Option<u8>,
     // A stack of catch points for handling errors
-    pub catch_stack: Vec<(u8, u32)>, // catch error register, catch ip
+    // catch error register, catch ip, (sequence builder count, string builder count)
+    pub catch_stack: Vec<(u8, u32, (usize, usize))>,
+    // The number of sequence and string builders that were active when the frame was entered
+    pub builder_counts: (usize, usize),
     // True if the frame should prevent execution from continuing after the frame is exited.
     // e.g.
     //   - a function is being called externally from the VM
@@ -4052,6 +4072,7 @@ impl Frame {
             return_value_register: None,
             return_instruction_ip: 0,
             catch_stack: vec![],
+            builder_counts: (0, 0),
             execution_barrier: false,
         }
     }
